@@ -81,7 +81,7 @@ struct SaveWorld : World {
                 case 'f': { double s = pr.unit(); float f = s < 0.5 ? (float)(pp.lo + (pp.hi - pp.lo) * pr.unit()) : s < 0.7 ? (float)((int)pr.below(81) - 40) / 8.0f : s < 0.85 ? pr.pick(std::vector<float>{(float)pp.lo, (float)pp.hi, 0.1f, -0.1f, 1e-6f, 0.333333343f}) : (float)(pp.lo - 1 + (pp.hi - pp.lo + 2) * pr.unit());
                     if (f == 0) f = 0; uint32_t u; memcpy(&u, &f, 4); o.a[2] = u; break; }
                 case 'T': o.a[2] = pr.chance(0.6); break;
-                case 'o': o.a[2] = pr.below(pp.opts.size()); o.a[3] = pr.chance(0.5); break;
+                case 'o': o.a[2] = pr.below((size_t)pp.hi + 1 > pp.opts.size() && pr.chance(0.4) ? (size_t)pp.hi + 1 : pp.opts.size()); o.a[3] = pr.chance(0.5); break;   // a declared range may reach beyond the symbols
                 case 's': { int len = (int)pr.below(pp.slen + 4); static const char cs[] = "abcXYZ019 _-\"'%\\/:#\n\t[]"; bool special = pr.chance(0.4); for (int q = 0; q < len; q++) o.s += special ? cs[pr.below(sizeof cs - 1)] : (char)('a' + pr.below(26)); break; }
                 }
             } else { o.kind = OP_CYCLE; o.a[0] = faults && pr.chance(0.6) ? 1 + (int64_t)pr.below(FL_N - 1) : 0; o.a[1] = (int64_t)pr.below(100000); o.a[2] = (int64_t)pr.below(1u << 30); }
@@ -99,7 +99,7 @@ struct SaveWorld : World {
         case 'c': n = rtosc_message(buf, sizeof buf, addr.c_str(), "c", (int)std::max<int64_t>(0, std::min<int64_t>(op.a[2], 127))); break;
         case 'f': { float f; uint32_t u = (uint32_t)op.a[2]; memcpy(&f, &u, 4); if (std::isnan(f) || std::isinf(f)) f = 0.25f; if (f == 0) f = 0; n = rtosc_message(buf, sizeof buf, addr.c_str(), "f", f); break; }
         case 'T': n = rtosc_message(buf, sizeof buf, addr.c_str(), (op.a[2] & 1) ? "T" : "F"); break;
-        case 'o': { int idx = (int)(((op.a[2] % (int64_t)pp.opts.size()) + pp.opts.size()) % pp.opts.size()); n = (op.a[3] & 1) ? rtosc_message(buf, sizeof buf, addr.c_str(), "S", pp.opts[idx].c_str()) : rtosc_message(buf, sizeof buf, addr.c_str(), "i", idx); break; }
+        case 'o': { int64_t span = std::max<int64_t>((int64_t)pp.opts.size(), (int64_t)pp.hi + 1); int idx = (int)(((op.a[2] % span) + span) % span); n = (op.a[3] & 1) && idx < (int)pp.opts.size() ? rtosc_message(buf, sizeof buf, addr.c_str(), "S", pp.opts[idx].c_str()) : rtosc_message(buf, sizeof buf, addr.c_str(), "i", idx); break; }
         case 's': n = rtosc_message(buf, sizeof buf, addr.c_str(), "s", op.s.substr(0, 200).c_str()); break;
         }
         if (!n) return; Loc d; d.obj = in.obj; in.d->ports->dispatch(buf, d, true);
